@@ -309,22 +309,38 @@ theorem parseItems_expanded (cv : Conv) (fmt : Bytes → Bytes) :
         simp
 
 /-- expanded spelling with the defaults pending at the end dropped. -/
-def xtrim (fmt : Bytes → Bytes) (flush : Bool) : Nat → Vals → List Bytes
-  | dc, [] => if flush then List.replicate dc oneStar else []
-  | dc, p :: r =>
-    if p.2 = .deck then List.replicate dc oneStar ++ valTok fmt p.1 :: xtrim fmt flush 0 r
-    else xtrim fmt flush (dc + 1) r
+def xtrim (fmt : Bytes → Bytes) (flush : Bool) : Bool → Nat → Vals → List Bytes
+  | any, dc, [] => if flush ∧ any then List.replicate dc oneStar else []
+  | any, dc, p :: r =>
+    if p.2 = .deck then List.replicate dc oneStar ++ valTok fmt p.1 :: xtrim fmt flush true 0 r
+    else xtrim fmt flush any (dc + 1) r
 
 /-- number of defaults that are pending at `end_record` and dropped there. -/
-def pend (flush : Bool) : Nat → Vals → Nat
-  | dc, [] => if flush then 0 else dc
-  | dc, p :: r => if p.2 = .deck then pend flush 0 r else pend flush (dc + 1) r
+def pend (flush : Bool) : Bool → Nat → Vals → Nat
+  | any, dc, [] => if flush ∧ any then 0 else dc
+  | any, dc, p :: r => if p.2 = .deck then pend flush true 0 r else pend flush any (dc + 1) r
 
-theorem pend_flush : ∀ (flat : Vals) (dc : Nat), pend true dc flat = 0 := by
+theorem pend_flush_any : ∀ (flat : Vals) (dc : Nat), pend true true dc flat = 0 := by
   intro flat
   induction flat with
   | nil => intro dc; rfl
   | cons p r ih => intro dc; simp only [pend]; split <;> exact ih _
+
+/-- when pending defaults are written, nothing is dropped from a record that holds an
+explicit value. -/
+theorem pend_flush (flat : Vals) (h : ∃ p ∈ flat, p.2 = .deck) : ∀ dc, pend true false dc flat = 0 := by
+  induction flat with
+  | nil => obtain ⟨p, hp, _⟩ := h; cases hp
+  | cons q r ih =>
+    intro dc
+    simp only [pend]
+    split
+    · exact pend_flush_any r 0
+    · next hq =>
+      obtain ⟨p, hp, hd⟩ := h
+      rcases List.mem_cons.mp hp with rfl | hp
+      · exact absurd hd hq
+      · exact ih ⟨p, hp, hd⟩ _
 
 theorem replicate_append_cons (n : Nat) (x : Bytes) (l : List Bytes) :
     List.replicate n x ++ x :: l = List.replicate (n + 1) x ++ l := by
@@ -332,42 +348,44 @@ theorem replicate_append_cons (n : Nat) (x : Bytes) (l : List Bytes) :
   | zero => rfl
   | succ n ih => simp only [List.replicate_succ, List.cons_append, ih]
 
-theorem expanded_eq_xtrim (fmt : Bytes → Bytes) (flush : Bool) : ∀ (flat : Vals) (dc : Nat),
+theorem expanded_eq_xtrim (fmt : Bytes → Bytes) (flush : Bool) : ∀ (flat : Vals) (any : Bool) (dc : Nat),
     List.replicate dc oneStar ++ flat.map (tokOf fmt) =
-      xtrim fmt flush dc flat ++ List.replicate (pend flush dc flat) oneStar := by
+      xtrim fmt flush any dc flat ++ List.replicate (pend flush any dc flat) oneStar := by
   intro flat
   induction flat with
-  | nil => intro dc; cases flush <;> simp [xtrim, pend]
+  | nil => intro any dc; cases flush <;> cases any <;> simp [xtrim, pend]
   | cons p r ih =>
-    intro dc
+    intro any dc
     by_cases hd : p.2 = .deck
-    · have := ih 0
+    · have := ih true 0
       simp only [List.replicate_zero, List.nil_append] at this
       simp only [List.map_cons, tokOf, hd, ↓reduceIte, xtrim, pend, this, List.append_assoc,
         List.cons_append]
     · simp only [List.map_cons, tokOf, hd, ↓reduceIte, xtrim, pend]
       rw [replicate_append_cons]
-      exact ih (dc + 1)
+      exact ih any (dc + 1)
 
 /-- Step 1: every pending-defaults token `n*` may be read as `n` times `1*`. -/
 theorem parseItems_emitToks_xtrim (cv : Conv) (fmt : Bytes → Bytes) (flush : Bool) (items : List Item)
     (hraw : ∀ it ∈ items, it.raw = false) :
-    ∀ (flat : Vals) (dc : Nat) (pre : List Bytes), dc + flat.length ≤ 2147483647 →
-      parseItems cv items (pre ++ emitToks fmt flush dc flat) = parseItems cv items (pre ++ xtrim fmt flush dc flat) := by
+    ∀ (flat : Vals) (any : Bool) (dc : Nat) (pre : List Bytes), dc + flat.length ≤ 2147483647 →
+      parseItems cv items (pre ++ emitToks fmt flush any dc flat) =
+        parseItems cv items (pre ++ xtrim fmt flush any dc flat) := by
   intro flat
   induction flat with
   | nil =>
-    intro dc pre hb
-    cases flush with
-    | false => simp [emitToks, xtrim]
-    | true =>
+    intro any dc pre hb
+    by_cases hf : flush = true ∧ any = true
+    · obtain ⟨rfl, rfl⟩ := hf
       by_cases h0 : dc = 0
       · subst h0; simp [emitToks, xtrim]
       · have h2 := parseItems_starExp cv (starTok dc) (List.replicate dc oneStar)
           (starExp_starTok dc (by omega) (by simp at hb; omega)) [] items hraw pre
         simpa [emitToks, xtrim, h0] using h2
+    · have h1 : ¬ (flush = true ∧ any = true ∧ dc ≠ 0) := fun h => hf ⟨h.1, h.2.1⟩
+      simp only [emitToks, xtrim, h1, hf, ↓reduceIte]
   | cons p r ih =>
-    intro dc pre hb
+    intro any dc pre hb
     simp only [List.length_cons] at hb
     obtain ⟨v, st⟩ := p
     by_cases hd : st = .deck
@@ -375,18 +393,18 @@ theorem parseItems_emitToks_xtrim (cv : Conv) (fmt : Bytes → Bytes) (flush : B
       simp only [emitToks, xtrim, ↓reduceIte]
       by_cases h0 : dc = 0
       · subst h0
-        have := ih 0 (pre ++ [valTok fmt v]) (by omega)
+        have := ih true 0 (pre ++ [valTok fmt v]) (by omega)
         simpa using this
       · simp only [h0, ↓reduceIte, List.singleton_append]
-        have h1 := ih 0 (pre ++ [starTok dc, valTok fmt v]) (by omega)
+        have h1 := ih true 0 (pre ++ [starTok dc, valTok fmt v]) (by omega)
         simp only [List.append_assoc, List.cons_append, List.nil_append] at h1
         rw [h1]
         have h2 := parseItems_starExp cv (starTok dc) (List.replicate dc oneStar)
-          (starExp_starTok dc (by omega) (by omega)) (valTok fmt v :: xtrim fmt flush 0 r) items hraw pre
+          (starExp_starTok dc (by omega) (by omega)) (valTok fmt v :: xtrim fmt flush true 0 r) items hraw pre
         simp only [List.append_assoc] at h2
         exact h2
     · simp only [emitToks, xtrim, hd, ↓reduceIte]
-      exact ih (dc + 1) pre (by omega)
+      exact ih any (dc + 1) pre (by omega)
 
 theorem conf_raw (cv : Conv) (fmt : Bytes → Bytes) : ∀ (items : List Item) (r : List Vals),
     Conf cv fmt items r → ∀ it ∈ items, it.raw = false := by
@@ -445,29 +463,28 @@ theorem conf_plain (cv : Conv) (fmt : Bytes → Bytes) : ∀ (items : List Item)
           exact hq.1
         · exact ih rs hrest p hp hd
 
-theorem xtrim_simple_weight (fmt : Bytes → Bytes) (flush : Bool) : ∀ (flat : Vals) (dc : Nat),
+theorem xtrim_simple_weight (fmt : Bytes → Bytes) (flush : Bool) : ∀ (flat : Vals) (any : Bool) (dc : Nat),
     (∀ p ∈ flat, p.2 = .deck → classify (valTok fmt p.1) = .plain) →
-    (∀ t ∈ xtrim fmt flush dc flat, Simple t) ∧
-      totalWeight (xtrim fmt flush dc flat) + pend flush dc flat = dc + flat.length := by
+    (∀ t ∈ xtrim fmt flush any dc flat, Simple t) ∧
+      totalWeight (xtrim fmt flush any dc flat) + pend flush any dc flat = dc + flat.length := by
   intro flat
   induction flat with
   | nil =>
-    intro dc _
-    cases flush with
-    | false => simp [xtrim, pend, totalWeight]
-    | true =>
-      refine ⟨?_, ?_⟩
+    intro any dc _
+    by_cases hf : flush = true ∧ any = true
+    · refine ⟨?_, ?_⟩
       · intro t ht
-        simp only [xtrim, ↓reduceIte] at ht
+        simp only [xtrim, hf, and_self, ↓reduceIte] at ht
         rw [(List.mem_replicate.mp ht).2]; exact simple_oneStar
-      · simp only [xtrim, pend, ↓reduceIte, List.length_nil]
+      · simp only [xtrim, pend, hf, and_self, ↓reduceIte, List.length_nil]
         rw [totalWeight_replicate _ _ weight_oneStar]
+    · simp [xtrim, pend, hf, totalWeight]
   | cons p r ih =>
-    intro dc h
+    intro any dc h
     have hr : ∀ q ∈ r, q.2 = .deck → classify (valTok fmt q.1) = .plain := fun q hq => h q (by simp [hq])
     by_cases hd : p.2 = .deck
     · have hp := h p (by simp) hd
-      obtain ⟨hs, hw⟩ := ih 0 hr
+      obtain ⟨hs, hw⟩ := ih true 0 hr
       simp only [xtrim, pend, hd, ↓reduceIte]
       refine ⟨?_, ?_⟩
       · intro t ht
@@ -478,12 +495,12 @@ theorem xtrim_simple_weight (fmt : Bytes → Bytes) (flush : Bool) : ∀ (flat :
           · exact hs t ht
       · rw [totalWeight_append, totalWeight_replicate _ _ weight_oneStar]
         have hw1 : weight (valTok fmt p.1) = 1 := by unfold weight; rw [hp]
-        have : totalWeight (valTok fmt p.1 :: xtrim fmt flush 0 r) = 1 + totalWeight (xtrim fmt flush 0 r) := by
+        have : totalWeight (valTok fmt p.1 :: xtrim fmt flush true 0 r) = 1 + totalWeight (xtrim fmt flush true 0 r) := by
           simp [totalWeight, hw1]
         rw [this]
         simp only [List.length_cons]
         omega
-    · obtain ⟨hs, hw⟩ := ih (dc + 1) hr
+    · obtain ⟨hs, hw⟩ := ih any (dc + 1) hr
       simp only [xtrim, pend, hd, ↓reduceIte]
       refine ⟨hs, ?_⟩
       simp only [List.length_cons]
@@ -497,18 +514,18 @@ come back from `n*`, trailing ones from the premature end of the record.
 the parser cannot know how many there were) unless it is empty. -/
 theorem parse_write_tokens (cv : Conv) (fmt : Bytes → Bytes) (flush : Bool) (items : List Item) (r : List Vals)
     (hc : Conf cv fmt items r) (hlen : r.flatten.length ≤ 2147483647)
-    (htrail : pend flush 0 r.flatten = 0 ∨ r.flatten.length ≤ singlePrefix items) :
-    parseItems cv items (emitToks fmt flush 0 r.flatten) = some (r.map (·.map (normP fmt))) := by
+    (htrail : pend flush false 0 r.flatten = 0 ∨ r.flatten.length ≤ singlePrefix items) :
+    parseItems cv items (emitToks fmt flush false 0 r.flatten) = some (r.map (·.map (normP fmt))) := by
   have hraw := conf_raw cv fmt items r hc
   have hplain := conf_plain cv fmt items r hc
-  have h1 := parseItems_emitToks_xtrim cv fmt flush items hraw r.flatten 0 [] (by omega)
+  have h1 := parseItems_emitToks_xtrim cv fmt flush items hraw r.flatten false 0 [] (by omega)
   simp only [List.nil_append] at h1
   rw [h1]
-  obtain ⟨hs, hw⟩ := xtrim_simple_weight fmt flush r.flatten 0 hplain
-  have h2 := expanded_eq_xtrim fmt flush r.flatten 0
+  obtain ⟨hs, hw⟩ := xtrim_simple_weight fmt flush r.flatten false 0 hplain
+  have h2 := expanded_eq_xtrim fmt flush r.flatten false 0
   simp only [List.replicate_zero, List.nil_append] at h2
-  have h3 : parseItems cv items (xtrim fmt flush 0 r.flatten ++ List.replicate (pend flush 0 r.flatten) oneStar) =
-      parseItems cv items (xtrim fmt flush 0 r.flatten) := by
+  have h3 : parseItems cv items (xtrim fmt flush false 0 r.flatten ++ List.replicate (pend flush false 0 r.flatten) oneStar) =
+      parseItems cv items (xtrim fmt flush false 0 r.flatten) := by
     rcases htrail with h0 | hle
     · rw [h0]; simp
     · exact parseItems_trailing_default cv items hraw _ _ hs (by omega)
@@ -551,11 +568,11 @@ text `DeckRecord::write` produces — with or without line splitting — returns
 values and default flags. -/
 theorem parse_write_record (cv : Conv) (fmt : Bytes → Bytes) (flush split : Bool) (items : List Item)
     (r : List Vals) (hc : Conf cv fmt items r) (hlen : r.flatten.length ≤ 2147483647)
-    (htrail : pend flush 0 r.flatten = 0 ∨ r.flatten.length ≤ singlePrefix items)
-    (hat : ∀ t ∈ emitToks fmt flush 0 r.flatten, Atomic t ∧ evenQuotes t = true) :
+    (htrail : pend flush false 0 r.flatten = 0 ∨ r.flatten.length ≤ singlePrefix items)
+    (hat : ∀ t ∈ emitToks fmt flush false 0 r.flatten, Atomic t ∧ evenQuotes t = true) :
     parseRecord cv items (writtenRecordText fmt flush split r) 47 = some (r.map (·.map (normP fmt))) := by
   unfold parseRecord rawRecord writtenRecordText
-  have he : evenQuotes (layout split 0 (emitToks fmt flush 0 r.flatten) ++ [32]) = true :=
+  have he : evenQuotes (layout split 0 (emitToks fmt flush false 0 r.flatten) ++ [32]) = true :=
     evenQuotes_append _ _ (evenQuotes_layout split _ 0 (fun t ht => (hat t ht).2)) (by decide)
   simp only [he, ↓reduceIte, tokenize_layout_record split _ (fun t ht => (hat t ht).1) 47]
   exact parse_write_tokens cv fmt flush items r hc hlen htrail
@@ -565,12 +582,13 @@ theorem valTok_normVal (fmt : Bytes → Bytes) (hf : ∀ t, fmt (fmt t) = fmt t)
   cases v <;> simp [normVal, valTok, hf]
 
 theorem emitToks_norm (fmt : Bytes → Bytes) (flush : Bool) (hf : ∀ t, fmt (fmt t) = fmt t) :
-    ∀ (flat : Vals) (dc : Nat), emitToks fmt flush dc (flat.map (normP fmt)) = emitToks fmt flush dc flat := by
+    ∀ (flat : Vals) (any : Bool) (dc : Nat),
+      emitToks fmt flush any dc (flat.map (normP fmt)) = emitToks fmt flush any dc flat := by
   intro flat
   induction flat with
-  | nil => intro dc; rfl
+  | nil => intro any dc; rfl
   | cons p r ih =>
-    intro dc
+    intro any dc
     obtain ⟨v, st⟩ := p
     by_cases hd : st = .deck
     · subst hd
